@@ -1,72 +1,61 @@
 ------------------------------ MODULE FindAll ------------------------------
 (***************************************************************************)
-(* Implementation-shaped model of matcher.find_all as coded: every         *)
-(* position starts an attempt (Pattern(idx, dfa)), all active attempts     *)
-(* advance in parallel on each item, in order of their start:              *)
-(*   - an attempt that starts before the end of the LAST committed match   *)
-(*     is dropped (overlap guard);                                         *)
-(*   - an attempt that cannot consume the item is committed as a match if  *)
-(*     it is in an accepting state, dropped otherwise;                     *)
-(*   - after the last item the surviving accepting attempts are committed, *)
-(*     under the same overlap guard (TailGuard = TRUE: the code after its  *)
-(*     `fix:` commit; FALSE reproduces the earlier defect - overlapping,   *)
-(*     out-of-order matches at the end of input - and is used by the       *)
-(*     self-test only).                                                    *)
-(* One Step = one iteration of `for idx, item in enumerate(sequence)`.     *)
+(* Implementation-shaped model of matcher.find_all as coded (after the     *)
+(* `fix:` commit d7bef04): a scan position, one attempt at a time,         *)
+(* leftmost first.                                                         *)
+(*   StartAttempt   Pattern(idx, dfa)                                      *)
+(*   Consume        pattern.consume(sequence[end]) succeeded               *)
+(*   Commit         the attempt stopped in an accepting state -> a match,  *)
+(*                  scanning resumes just past it                          *)
+(*   Abandon        it stopped elsewhere -> scanning resumes at idx + 1    *)
+(*   Done           idx reached the end of the sequence                    *)
 (* Abstraction: the DFA state of an attempt is represented by the consumed *)
 (* slice; "a transition exists" is Viable, "accepting" is InL (established *)
 (* by Thompson.tla: DfaAliveOK, MatchOK).                                  *)
-(*                                                                         *)
-(* NAMED DEVIATION (open finding F10-C14, EvictEnclosing): a match that    *)
-(* starts later and ends earlier is committed first and the overlap guard  *)
-(* then drops the still-running enclosing attempt, so the enclosing        *)
-(* position is not covered (Covers fails; CoversUpToEviction holds).  The   *)
-(* repository's test-suite pins this behaviour (test_anonymous_class).     *)
-(* FindAllLeftmost.tla is a design without the deviation.                  *)
+(* TLC checks every clause of C14 on the result: Sound, Longest, Ordered,  *)
+(* Covers, and IsRef (the result IS the reference search).                 *)
+(* The earlier parallel-attempt algorithm, whose eviction defect (finding  *)
+(* F10-C14, repaired) TLC exhibits, is kept in FindAllParallel.tla.        *)
 (***************************************************************************)
 EXTENDS Regex, TLC
-CONSTANTS Sigma, MaxSize, MaxLen, TailGuard
+CONSTANTS Sigma, MaxSize, MaxLen
 
-VARIABLES re, w, idx, active, matches, phase
-vars == <<re, w, idx, active, matches, phase>>
-
-Accepting(s, e) == InL(re, Sub(w, s, e))
-Stuck(s, e) == \A a \in Sigma : ~Viable(re, Append(Sub(w, s, e), a))
-RECURSIVE Proc(_, _, _, _)
-Proc(acts, i, ms, keep) ==
-  IF acts = <<>> THEN <<keep, ms>> ELSE
-  LET s == Head(acts) rest == Tail(acts) IN
-  IF ms # <<>> /\ s < ms[Len(ms)][2] THEN Proc(rest, i, ms, keep)
-  ELSE IF Stuck(s, i) /\ Accepting(s, i) THEN Proc(rest, i, Append(ms, <<s, i>>), keep)
-  ELSE IF Viable(re, Sub(w, s, i + 1)) THEN Proc(rest, i, ms, Append(keep, s))
-  ELSE IF Accepting(s, i) THEN Proc(rest, i, Append(ms, <<s, i>>), keep)
-  ELSE Proc(rest, i, ms, keep)
-RECURSIVE TailLoop(_, _)
-TailLoop(acts, ms) ==
-  IF acts = <<>> THEN ms ELSE
-  LET s == Head(acts) IN
-  IF TailGuard /\ ms # <<>> /\ s < ms[Len(ms)][2] THEN TailLoop(Tail(acts), ms)
-  ELSE IF Accepting(s, Len(w)) THEN TailLoop(Tail(acts), Append(ms, <<s, Len(w)>>))
-  ELSE TailLoop(Tail(acts), ms)
+VARIABLES re, w, idx, end, phase, matches
+vars == <<re, w, idx, end, phase, matches>>
 
 Words == UNION { [1..n -> Sigma] : n \in 0..MaxLen }
-Init == /\ re \in { r \in AllAST(Sigma, MaxSize) : ~Nullable(r) } /\ w \in Words
-        /\ idx = 0 /\ active = <<>> /\ matches = <<>> /\ phase = "loop"
-Step == /\ phase = "loop" /\ idx < Len(w)
-        /\ LET r == Proc(Append(active, idx), idx, matches, <<>>) IN
-             active' = r[1] /\ matches' = r[2]
-        /\ idx' = idx + 1 /\ UNCHANGED <<re, w, phase>>
-Finish == /\ phase = "loop" /\ idx = Len(w)
-          /\ matches' = TailLoop(active, matches) /\ phase' = "done"
-          /\ UNCHANGED <<re, w, idx, active>>
-Next == Step \/ Finish
+
+Init == /\ re \in { r \in AllAST(Sigma, MaxSize) : ~Nullable(r) }
+        /\ w \in Words
+        /\ idx = 0 /\ end = 0 /\ phase = "scan" /\ matches = <<>>
+
+StartAttempt == /\ phase = "scan" /\ idx < Len(w)
+                /\ phase' = "attempt" /\ end' = idx
+                /\ UNCHANGED <<re, w, idx, matches>>
+Consume == /\ phase = "attempt" /\ end < Len(w) /\ Viable(re, Sub(w, idx, end + 1))
+           /\ end' = end + 1
+           /\ UNCHANGED <<re, w, idx, phase, matches>>
+Stopped == phase = "attempt" /\ (IF end = Len(w) THEN TRUE ELSE ~Viable(re, Sub(w, idx, end + 1)))
+Commit  == /\ Stopped /\ InL(re, Sub(w, idx, end))
+           /\ matches' = Append(matches, <<idx, end>>)
+           /\ idx' = IF end > idx THEN end ELSE idx + 1
+           /\ phase' = "scan"
+           /\ UNCHANGED <<re, w, end>>
+Abandon == /\ Stopped /\ ~InL(re, Sub(w, idx, end))
+           /\ idx' = idx + 1 /\ phase' = "scan"
+           /\ UNCHANGED <<re, w, end, matches>>
+Done == /\ phase = "scan" /\ idx >= Len(w) /\ phase' = "done"
+        /\ UNCHANGED <<re, w, idx, end, matches>>
+Next == StartAttempt \/ Consume \/ Commit \/ Abandon \/ Done
 Spec == Init /\ [][Next]_vars
+
+(* C14, clause by clause, on the result *)
 Finished == phase = "done"
-Sound   == Finished => InBounds(w, matches) /\ AreWords(re, w, matches)
-Longest == Finished => AreLongest(re, w, matches)
-Ordered == Finished => OrderedDisjoint(matches)
-Covers  == Finished => Complete(re, w, matches)                          \* violated: F10-C14
-CoversUpToEviction == Finished => CompleteUpToEviction(re, w, matches)   \* holds
-(* while running: committed matches are ordered and disjoint at every step *)
-OrderedAlways == OrderedDisjoint(matches)
+Sound    == Finished => InBounds(w, matches) /\ AreWords(re, w, matches)
+Longest  == Finished => AreLongest(re, w, matches)
+Ordered  == Finished => OrderedDisjoint(matches)
+Covers   == Finished => Complete(re, w, matches)
+IsRef    == Finished => matches = SearchRef(re, w)
+(* while running: committed matches never extend past the scan position *)
+Progress == \A k \in 1..Len(matches) : matches[k][2] <= idx
 =============================================================================
